@@ -419,3 +419,7 @@ impl KeyValueStore {
         Ok(cursor)
     }
 }
+
+#[cfg(any(kani, rescrv_blue_verif))]
+#[path = "/verif/hk/lsmtk/kvs.rs"]
+mod verif_harness;
